@@ -103,6 +103,94 @@ def handshake(ctx, kex, strict_c, strict_s, edit, short_timeout=False):
     return obs
 
 
+def rekey_session(role, peer_initial_strict, peer_rekey_marker, initiators):
+    """initial handshake plus re-exchanges against a peer tool that follows the kex-strict specification whatever
+    the tree under test does (the marker only counts in the first KEXINIT) and that sends or omits the marker in
+    its later KEXINITs as told"""
+    from paramiko import Transport
+    from tests._loop import LoopSocket
+
+    kex = "curve25519-sha256@libssh.org"
+    a, b = LoopSocket(), LoopSocket()
+    a.link(b)
+    disabled = {"kex": [k for k in Transport._preferred_kex if k != kex]}
+    sub_strict, = (True,)
+    tc = Transport(a, disabled_algorithms=disabled, strict_kex=(sub_strict if role == "client" else peer_initial_strict))
+    ts = Transport(b, disabled_algorithms=disabled, strict_kex=(sub_strict if role == "server" else peer_initial_strict))
+    ts.add_server_key(L.host_key())
+    sub, peer = (tc, ts) if role == "client" else (ts, tc)
+    orig_parse = peer._parse_kex_init
+
+    def conformant_parse(m):
+        before, later = peer.agreed_on_strict_kex, peer.initial_kex_done
+        orig_parse(m)
+        if later:
+            peer.agreed_on_strict_kex = before
+
+    peer._parse_kex_init = conformant_parse
+    tap = L.Tap(sub)
+    evs = threading.Event()
+    ts.start_server(evs, L.make_server_class()())
+    tc.start_client(timeout=60)
+    if not evs.wait(60):
+        raise InfraError("server handshake did not finish")
+    out = {"role": role, "peer_initial_strict": peer_initial_strict, "peer_rekey_marker": peer_rekey_marker,
+           "initiators": list(initiators), "flags": [1 if sub.agreed_on_strict_kex else 0], "rekeys_ok": []}
+    peer.advertise_strict_kex = peer_rekey_marker
+    def both_settled():
+        # renegotiate_keys() returns when the *caller* has the peer's NEWKEYS; the other side may still be about to
+        # process its NEWKEYS (which clears local_kex_init) — starting the next exchange before that is a different
+        # experiment (a KEXINIT in the middle of an exchange)
+        return all((not t.is_active()) or (t.local_kex_init is None and t.clear_to_send.is_set() and not t.in_kex)
+                   for t in (tc, ts))
+
+    for who in initiators:
+        t = sub if who == "sub" else peer
+        try:
+            L.wait_until(both_settled, 60, "both sides to finish the exchange")
+            t.renegotiate_keys()
+            out["rekeys_ok"].append(True)
+        except Exception:
+            out["rekeys_ok"].append(False)
+            break
+        out["flags"].append(1 if sub.agreed_on_strict_kex else 0)
+    if all(out["rekeys_ok"]):
+        L.wait_until(both_settled, 60, "both sides to finish the last exchange")
+    if not all(out["rekeys_ok"]):
+        for t in (tc, ts):
+            t.join(20)
+    alive = sub.is_alive() and sub.is_active()
+    out.update({
+        "active": 1 if alive else 0,
+        "err": "-" if alive else ("ended" if sub.saved_exception is None else L.exc_class(sub.saved_exception)),
+        "site": exc_site(sub.saved_exception) if sub.saved_exception is not None else "-",
+        "done": 1 if sub.initial_kex_done else 0, "agreed": 1 if sub.agreed_on_strict_kex else 0,
+        "seq_in": L.seq_in(sub), "seq_out": L.seq_out(sub), "rx": list(tap.rx), "tx": list(tap.tx)})
+    for t in (tc, ts):
+        t.close()
+    for t in (tc, ts):
+        t.join(10)
+    return out
+
+
+def rekey_model_requests(o):
+    reqs = ["init %d 0 1 1" % (1 if o["role"] == "server" else 0)]
+    k = -1       # index of the exchange a received KEXINIT belongs to (0 = initial)
+    for ptype, _seq, names in o["rx"]:
+        if ptype == 20:
+            k += 1
+            if k >= 1 and k - 1 < len(o["initiators"]) and o["initiators"][k - 1] == "sub":
+                reqs.append("rekey")            # our KEXINIT went out first (renegotiate_keys on the subject)
+            nm = ",".join(n.encode().hex() for n in names) or "-"
+            reqs.append("recv 20 %s ecdh 1 0 -" % nm)
+        else:
+            reqs.append("recv %d - - 1 0 -" % ptype)
+    attempted = len(o["rekeys_ok"])
+    if attempted > k and k < len(o["initiators"]) and o["initiators"][k] == "sub":
+        reqs.append("rekey")                    # our KEXINIT went out, the peer's never arrived
+    return reqs
+
+
 def model_requests(role, strict, kexkind, o):
     reqs = ["init %d 0 %d 1" % (1 if role == "server" else 0, 1 if strict else 0)]
     for ptype, _seq, names in o["rx"]:
@@ -126,7 +214,9 @@ def run(ctx):
     ctx.rule = ("handshakes through a plaintext man in the middle: injection of IGNORE/DEBUG/UNIMPLEMENTED/unknown/"
                 "duplicate before packet #i, or deletion of packet #i, for every i of the initial handshake, both "
                 "directions, strict on/off per side, per kex method; distinct = (kex, strict pair, edit, direction, "
-                "position); non-trivial = the edit changes what a peer receives before NEWKEYS")
+"position); non-trivial = the edit changes what a peer receives before NEWKEYS. Plus sessions with three "
+                "re-exchanges (either side initiating) against a specification-conformant peer whose later KEXINITs "
+                "omit, repeat or newly add the kex-strict marker")
     ctx.trust("pv/lib_runloop.py Relay/Tap (plaintext packet parser, packetizer taps)",
               "kex engine contents (signatures, DH values) are unmodified in these runs: engineOk = true")
     L.write_generated(ctx)
@@ -250,6 +340,39 @@ def run(ctx):
             index.append((len(reqs), len(rq), case, name, o))
             reqs += rq
 
+    # ---------------- re-exchanges: strict mode is decided by the initial exchange, counters restart every time
+    rk_jobs = [(role, pis, prm, ini) for role in ("client", "server")
+               for pis, prm in ((True, False), (True, True), (False, False), (False, True))
+               for ini in (("sub", "peer", "peer"), ("peer", "sub", "peer"))]
+    for role, pis, prm, ini in rk_jobs:
+        o = rekey_session(role, pis, prm, ini)
+        case = {k: o[k] for k in ("role", "peer_initial_strict", "peer_rekey_marker", "initiators", "flags",
+                                  "rekeys_ok", "err")}
+        ctx.case(("rekey", role, pis, prm, ini), True)
+        ctx.dist("rekey:initial-%s:marker-%s" % ("strict" if pis else "plain", "sent" if prm else "omitted"))
+        late = (not pis) and prm     # a marker that first appears in a re-exchange: outside the property (peers must
+        #                              not do it, receivers should ignore it); compared with the model only
+        if not late:
+            s0 = o["flags"][0]
+            if s0 != (1 if pis else 0):
+                ctx.fail("strict-agreement-wrong", case, "after the initial exchange: %d" % s0)
+            if any(f != s0 for f in o["flags"]):
+                ctx.fail("strict-mode-changed-by-rekey:marker-%s" % ("sent" if prm else "omitted"), case,
+                         "agreed_on_strict_kex over the session: %r" % (o["flags"],))
+            if not all(o["rekeys_ok"]) or len(o["rekeys_ok"]) != len(ini) or not o["active"]:
+                ctx.fail("session-lost-in-rekey:marker-%s" % ("sent" if prm else "omitted"), case,
+                         "re-exchanges %r, subject %s (%s)" % (o["rekeys_ok"], o["err"], o["site"]))
+            for which, trace in (("in", o["rx"]), ("out", o["tx"])):
+                for j, rec in enumerate(trace[:-1]):
+                    if rec[0] == 21 and (trace[j + 1][1] == 0) != bool(s0):
+                        ctx.fail("seqno-after-newkeys:%s:%s" % (which, "not-reset" if s0 else "reset-without-strict"),
+                                 case, "packet after NEWKEYS #%d has seqno %d" % (j, trace[j + 1][1]))
+        else:
+            ctx.dist("late-marker:%s" % ("mode-flipped" if len(set(o["flags"])) > 1 else "mode-kept"))
+        rq = rekey_model_requests(o)
+        index.append((len(reqs), len(rq), dict(case, what="rekey-session"), role, o))
+        reqs += rq
+
     replies = ctx.driver("C09", reqs)
     if replies is not None:
         for start, n, case, name, o in index:
@@ -274,6 +397,9 @@ def run(ctx):
                 # the packet layer gave up (MAC/framing of the encrypted phase after a shifted or re-keyed stream):
                 # C02's subject; the loop model is compared up to that point
                 ctx.dist("ended-by-packet-layer")
+                impl["err"], impl["active"] = "-", 1
+            if case.get("what") == "rekey-session" and impl["err"] == "ended" and model["err"] == "-":
+                ctx.dist("ended-by-peer")
                 impl["err"], impl["active"] = "-", 1
             if impl["err"] == "eof" and model["err"] == "-":
                 # the loop ended because the *other* side went away or the handshake timer fired while this side
